@@ -108,6 +108,9 @@ def runK : List String → Option String
       let f ← parseMat? f; let p ← parseCube? K p; let w ← parseVec? w
       let cosl ← parseVec? cosl; let vor ← parseMat? vor; let dv ← parseMat? dv
       pure (renderPair K (vorDivToUvNodal Num.sqrt ly r (shTransforms ly ⟨f, p, w⟩) cosl vor dv c))
+  | ["dom", ly, k, x] => do
+      let ly ← parseLayout? ly; let k ← k.toNat?; let x ← parseMat? (K := K) x
+      pure (renderBool (domB (fun v => !(Num.ltb v 0) && !(Num.ltb 0 v)) ly k x))
   | _ => none
 
 def run : List String → Option String
